@@ -800,6 +800,13 @@ theorem step_minv (s : State) (op : Op) (h : MInv s) : MInv (step s op).1 := by
     split
     · exact (h.frame (setConn_mframe s c _)).frame (MFrame.of_eq rfl rfl rfl rfl rfl rfl)
     · exact h
+  | connFail c =>
+    simp only [step]
+    split
+    · split
+      · exact (h.frame (setConn_mframe s c _)).frame (MFrame.of_eq rfl rfl rfl rfl rfl rfl)
+      · exact h
+    · exact h
   | run => exact runAll_minv _ s h
   | tick ms => exact h.frame (MFrame.of_eq rfl rfl rfl rfl rfl rfl)
   | mark => exact h
